@@ -25,6 +25,9 @@ func c09Deviations() [][]TNode {
 		{Path: "big", Kind: "file", Body: strings.Repeat("0123456789", 200)},
 		{Path: "sp ace/ü", Kind: "file", Body: "u"},
 		{Path: "rod", Kind: "dir", Mode: 0555},
+		{Path: "gw", Kind: "dir", Mode: 0775},
+		{Path: "ww/inner", Kind: "file", Body: "w"},
+		{Path: "ww", Kind: "dir", Mode: 0777},
 		{Path: ".hidden/.x", Kind: "file", Body: "h"},
 	}
 	out := [][]TNode{nil}
